@@ -53,7 +53,13 @@ func c17NoCommentConstructed(r *an.Run) {
 					}
 				case *ssa.Store:
 					if fa, ok := x.Addr.(*ssa.FieldAddr); ok && an.IsNamed(fa.X.Type(), "go/ast", "File") && fieldNameOf(fa) == "Comments" {
-						r.Fail(short(f)+"|File.Comments", x.Pos(), "%s rewrites File.Comments", short(f))
+						// the one accepted form: the file's own list as the clean-up step handed it back — an
+						// ordered sub-sequence of that very list (groups that lost all their comments are dropped)
+						if why := filteredOwnComments(r, x.Val, fa.X); why == "" {
+							r.Pass(short(f)+"|File.Comments|filtered", x.Pos(), "%s stores into File.Comments what the clean-up step returned for that file's own list: a fresh, ordered sub-sequence of it", short(f))
+						} else {
+							r.Fail(short(f)+"|File.Comments", x.Pos(), "%s rewrites File.Comments (%s)", short(f), why)
+						}
 					}
 					// an element of a comment-group list that was handed in (File.Comments seen through a parameter)
 					if ia, ok := x.Addr.(*ssa.IndexAddr); ok && isCommentGroupList(ia.X.Type()) {
@@ -69,6 +75,9 @@ func c17NoCommentConstructed(r *an.Run) {
 							switch o.(type) {
 							case *ssa.Const, *ssa.MakeSlice:
 								continue
+							}
+							if zeroCapacityView(o) {
+								continue // s[:0:0]: append cannot write into s's array
 							}
 							r.Fail(short(f)+"|append-into-comment-list", x.Pos(), "%s appends to (a re-slice of) a list of comment groups it did not create (%s): with spare capacity this rewrites File.Comments in place — the caller keeps the old length, so trailing groups appear twice", short(f), an.Describe(o))
 						}
@@ -779,4 +788,132 @@ func commentCarrier(g *ssa.Function) (from, to int) {
 		return -1, -1
 	}
 	return from, to
+}
+
+// zeroCapacityView: a three-index slice expression whose capacity bound equals
+// its length bound (x[a:b:b], typically x[:0:0]) — appending to it always
+// allocates, nothing is written into x's array.
+func zeroCapacityView(v ssa.Value) bool {
+	sl, ok := v.(*ssa.Slice)
+	if !ok || sl.Max == nil || sl.High == nil {
+		return false
+	}
+	if sl.Max == sl.High {
+		return true
+	}
+	a, aok := an.ConstInt(sl.High)
+	b, bok := an.ConstInt(sl.Max)
+	return aok && bok && a == b
+}
+
+// filteredOwnComments decides the accepted form of a store into
+// File.Comments: val is the result of a call to the clean-up step that was
+// given the Comments of the same file, and that function returns an ordered
+// sub-sequence of the list it was given, built in a slice of its own. It
+// returns "" when that holds and otherwise what is wrong.
+func filteredOwnComments(r *an.Run, val ssa.Value, file ssa.Value) string {
+	call, ok := val.(*ssa.Call)
+	if !ok {
+		return "the value is not the result of the clean-up step"
+	}
+	g := an.StaticCallee(call)
+	if g == nil || !inCleanup(r, g) {
+		return "the value is not the result of the clean-up step"
+	}
+	pi := -1
+	for i, a := range call.Call.Args {
+		if ld, ok := a.(*ssa.UnOp); ok {
+			if fa, ok := ld.X.(*ssa.FieldAddr); ok && fieldNameOf(fa) == "Comments" && fa.X == file {
+				pi = i
+			}
+		}
+	}
+	if pi < 0 || pi >= len(g.Params) {
+		return "the clean-up step was not given this file's own comment list"
+	}
+	// the list must be read at the call, in the block of the store: nothing edits File.Comments in between
+	if call.Block() != nil {
+		for _, a := range call.Call.Args {
+			if ld, ok := a.(*ssa.UnOp); ok && ld.Block() != call.Block() {
+				if fa, ok := ld.X.(*ssa.FieldAddr); ok && fieldNameOf(fa) == "Comments" {
+					return "the comment list handed to the clean-up step was read earlier than at the call: a stale slice header"
+				}
+			}
+		}
+	}
+	param := g.Params[pi]
+	rets := an.Returns(g)
+	if len(rets) == 0 {
+		return "the clean-up step returns nothing"
+	}
+	for _, ret := range rets {
+		if len(ret.Results) != 1 {
+			return "the clean-up step returns more than the list"
+		}
+		if ret.Results[0] == ssa.Value(param) {
+			continue // the list as it was
+		}
+		for _, o := range sliceOrigins(ret.Results[0]) {
+			switch o.(type) {
+			case *ssa.Const, *ssa.MakeSlice:
+				continue
+			}
+			if !zeroCapacityView(o) {
+				return "the returned list is built in the array of " + an.Describe(o)
+			}
+		}
+		for v := range an.BackSlice(ret.Results[0], an.SliceOpts{}) {
+			app, ok := v.(*ssa.Call)
+			if !ok || !an.IsCallTo(app, "builtin:append") || !isCommentGroupList(app.Type()) {
+				continue
+			}
+			l := an.LoopOf(g, app.Block())
+			il := (*an.IndexLoop)(nil)
+			if l != nil {
+				il = an.AsIndexLoop(l)
+			}
+			if il == nil || il.Start != 0 || il.Step != 1 {
+				return "a group is appended outside a forward loop over the list"
+			}
+			for _, a := range appendedElements(app) {
+				ld, ok := a.(*ssa.UnOp)
+				if !ok {
+					return "something other than a group of the list is appended (" + an.Describe(a) + ")"
+				}
+				ia, ok := ld.X.(*ssa.IndexAddr)
+				if !ok || ia.X != ssa.Value(param) || ia.Index != il.Index {
+					return "something other than the current group of the list is appended"
+				}
+			}
+		}
+	}
+	return ""
+}
+
+// appendedElements returns the values append(s, e1, e2...) adds: the elements
+// stored into the compiler's varargs array, or the second argument itself for
+// append(s, t...).
+func appendedElements(app *ssa.Call) []ssa.Value {
+	if len(app.Call.Args) < 2 {
+		return nil
+	}
+	sl, ok := app.Call.Args[1].(*ssa.Slice)
+	if !ok {
+		return []ssa.Value{app.Call.Args[1]}
+	}
+	al, ok := sl.X.(*ssa.Alloc)
+	if !ok || al.Comment != "varargs" {
+		return []ssa.Value{app.Call.Args[1]}
+	}
+	var out []ssa.Value
+	for _, u := range *al.Referrers() {
+		if ia, ok := u.(*ssa.IndexAddr); ok {
+			for _, w := range *ia.Referrers() {
+				if st, ok := w.(*ssa.Store); ok {
+					out = append(out, st.Val)
+				}
+			}
+		}
+	}
+	return out
 }
